@@ -795,6 +795,9 @@ class OscMessageBuilder(object):
         """
         if not self._address:
             raise OscMessageBuildError('OSC addresses cannot be empty')
+        if not isinstance(self._address, str)\
+        or not self._address.startswith('/'):
+            raise OscMessageBuildError("OSC addresses must start with '/'")
         dgram = b''
         try:
             # Write the address.
